@@ -80,7 +80,14 @@ func verifSHAGen(rt *rapid.T, mode verifSHAMode) *verifSHAInput {
 	in.args.NodesShard = rapid.Uint32Range(1, uint32(6*scale)).Draw(rt, "nodesShard")
 	in.args.NodesMeta = rapid.Uint32Range(1, uint32(6*scale)).Draw(rt, "nodesMeta")
 	in.args.Hysteresis = rapid.SampledFrom([]float32{0, 0.2, 1}).Draw(rt, "hysteresis")
-	in.args.Adaptivity = false // split/merge are unimplemented stubs
+	// Adaptivity comes from nodesSetup.json ("adaptivity", factory/coreComponents.go passes GetAdaptivity() to the
+	// shuffler). With it UpdateNodeLists goes through splitShards / mergeShards whenever computeNewShards sees the
+	// node count cross a threshold; both are "not implemented" stubs that must keep the configuration. Drawn in the
+	// general mode only (C12); the C13 / C14 modes keep it off.
+	in.args.Adaptivity = false
+	if mode == verifSHAGeneral {
+		in.args.Adaptivity = rapid.IntRange(0, 2).Draw(rt, "adaptivity") == 0
+	}
 	in.args.ShuffleBetweenShards = rapid.Bool().Draw(rt, "shuffleBetweenShards")
 	nCfg := rapid.IntRange(0, 2).Draw(rt, "nMaxNodesCfg")
 	for i := 0; i < nCfg; i++ {
@@ -289,6 +296,43 @@ func (in *verifSHAInput) shuffler() (NodesShuffler, error) {
 	return NewHashValidatorsShuffler(&args)
 }
 
+// reshard re-derives, for classification only, which branch computeNewShards selects: +1 split, -1 merge, 0 none
+// (node count of the new epoch = eligible + waiting + new - leaving requests, as an uint32).
+func (in *verifSHAInput) reshard() int {
+	if !in.args.Adaptivity {
+		return 0
+	}
+	n := len(in.newNodes) - len(in.unstake)
+	// the shuffler removes from the additional list what is in the unstake list before counting
+	inUnstake := map[string]bool{}
+	for _, v := range in.unstake {
+		inUnstake[v.pk] = true
+	}
+	for _, v := range in.additional {
+		if !inUnstake[v.pk] {
+			n--
+		}
+	}
+	for _, s := range in.shardIDs {
+		if len(in.eligible[s]) > 0 || in.emptyAsKey[s] {
+			n += len(in.eligible[s]) + len(in.waiting[s])
+		}
+	}
+	nodes := uint32(n)
+	hS := uint32(float32(in.args.NodesShard) * in.args.Hysteresis)
+	hM := uint32(float32(in.args.NodesMeta) * in.args.Hysteresis)
+	if nodes > (in.nbShards+1)*(in.args.NodesShard+hS)+in.args.NodesMeta+hM {
+		if (nodes-(in.args.NodesMeta+hM))/(in.args.NodesShard+hS) > in.nbShards {
+			return 1
+		}
+		return 0
+	}
+	if nodes < in.nbShards*in.args.NodesShard+in.args.NodesMeta {
+		return -1
+	}
+	return 0
+}
+
 func (in *verifSHAInput) fixActive() bool { return in.epoch >= in.args.WaitingListFixEnableEpoch }
 func (in *verifSHAInput) balanceActive() bool {
 	return in.epoch >= in.args.BalanceWaitingListsEnableEpoch
@@ -333,8 +377,8 @@ func verifSHAKeys(l []verifSHAVal) string {
 // String writes the input out in full (for counterexamples).
 func (in *verifSHAInput) String() string {
 	var sb strings.Builder
-	fmt.Fprintf(&sb, "nbShards=%d nodesShard=%d nodesMeta=%d hyst=%v betweenShards=%v maxNodesCfg=%v balanceEpoch=%d fixEpoch=%d epoch=%d rand=%x;",
-		in.nbShards, in.args.NodesShard, in.args.NodesMeta, in.args.Hysteresis, in.args.ShuffleBetweenShards, in.args.MaxNodesEnableConfig,
+	fmt.Fprintf(&sb, "nbShards=%d nodesShard=%d nodesMeta=%d hyst=%v adaptivity=%v betweenShards=%v maxNodesCfg=%v balanceEpoch=%d fixEpoch=%d epoch=%d rand=%x;",
+		in.nbShards, in.args.NodesShard, in.args.NodesMeta, in.args.Hysteresis, in.args.Adaptivity, in.args.ShuffleBetweenShards, in.args.MaxNodesEnableConfig,
 		in.args.BalanceWaitingListsEnableEpoch, in.args.WaitingListFixEnableEpoch, in.epoch, in.rand)
 	for _, s := range in.shardIDs {
 		fmt.Fprintf(&sb, " shard %s: eligible=%s waiting=%s emptyAsKey=%v;", verifSHAShardName(s), verifSHAKeys(in.eligible[s]), verifSHAKeys(in.waiting[s]), in.emptyAsKey[s])
@@ -346,7 +390,7 @@ func (in *verifSHAInput) String() string {
 // shape is the canonical key for distinct counting: sizes vector, flags, leaving shape.
 func (in *verifSHAInput) shape() string {
 	var sb strings.Builder
-	fmt.Fprintf(&sb, "%d/%d/%d/%v/%d/%v/%v|", in.nbShards, in.args.NodesShard, in.args.NodesMeta, in.args.ShuffleBetweenShards, in.maxSwap(), in.fixActive(), in.balanceActive())
+	fmt.Fprintf(&sb, "%d/%d/%d/%v/%d/%v/%v/%d|", in.nbShards, in.args.NodesShard, in.args.NodesMeta, in.args.ShuffleBetweenShards, in.maxSwap(), in.fixActive(), in.balanceActive(), in.reshard())
 	where := map[string]string{}
 	for _, s := range in.shardIDs {
 		fmt.Fprintf(&sb, "%d+%d,", len(in.eligible[s]), len(in.waiting[s]))
